@@ -6,7 +6,7 @@ PY = {"i1": "1", "i2": "2", "i0": "0", "bT": "True", "bF": "False", "f1": "1.0",
       "Labc": "['abc', 'abd']", "LABC": "['ABC', 'abd']", "D_A1": "{'ABC': 1}", "D_a2": "{'abc': 2}", "D_a1": "{'abc': 1}",
       "huge": "10**400", "T1a": "(1, 'abc')", "T123": "(1, 2, 3)", "L1a": "[1, 'abc']", "S1": "{1}", "S2": "{2}", "S12": "{1, 2}", "Sf": "{1.0, 1.0005}",
       "Sg": "{1.0, 2.0}", "nan": "float('nan')", "inf": "float('inf')",
-      "Brepr": "Unprintable()", "Vobj": "Holder(0)",
+      "Brepr": "Unprintable()", "Vobj": "Holder(0)", "DC12": "Pt(1, 2)", "DC13": "Pt(1, 3)", "DC12c": "Pt(1, 2.0005)",
       "R12": "reversed([2, 1])", "M12": "map(int, ['1', '2'])"}
 FN = {"equal": "assert_equal", "not_equal": "assert_not_equal", "less": "assert_less", "less_equal": "assert_less_equal",
       "greater": "assert_greater", "greater_equal": "assert_greater_equal", "in": "assert_in", "not_in": "assert_not_in",
@@ -32,12 +32,15 @@ UNARY = {"is_none", "is_not_none", "true", "false"}
 # ... and an object that has an attribute literally named `value` (an enum member, a card, a node): it is not its value
 HOLDER = "class Holder:\n    def __init__(self, value):\n        self.value = value\n    def __repr__(self):\n        return 'Holder(%r)' % self.value\n"
 exec(HOLDER)
+# ... and instances of a dataclass (what a student's function returns for a record)
+DATACLASS = "from dataclasses import dataclass\n@dataclass\nclass Pt:\n    x: int\n    y: float\n"
+exec(DATACLASS)
 UNPRINTABLE = "class Unprintable:\n    def __repr__(self):\n        raise ValueError('no text for you')\n    __str__ = __repr__\n"
 exec(UNPRINTABLE)          # the instructor-side (raw) operand is an instance of the same class text
 
 
 def student_source():
-    lines = [UNPRINTABLE, HOLDER]
+    lines = [UNPRINTABLE, HOLDER, DATACLASS]
     for i, (name, lit) in enumerate(sorted(PY.items())):
         lines.append("def get_%d():\n    return %s" % (i, lit))
     lines.append("def raises():\n    raise ValueError('student failure')")
@@ -71,6 +74,11 @@ class World:
             return EXTRA[name]          # types and patterns are instructor-side values, never proxied
         if wrap == "proxy":
             return self.S.call(GETTER[name])
+        if name.startswith("DC"):
+            # the instructor holds an instance of the STUDENT's class (an equal-looking class of her own would simply be
+            # another class to Python): the plain object behind a call result
+            from pedal.sandbox.result import unwrap_value
+            return unwrap_value(self.S.call(GETTER[name]))
         return eval(PY[name])
 
 
